@@ -92,12 +92,77 @@ def _bin(check, repo, mod) -> None:
     check.decide(no is not None and no.equals(want), "C06-R1", "Dataset.bin: new_origin = origin + sampling·(factor−1)/2 (mean coordinate of the first block)",
                  str(no), mod.line(loop), fail_detail=f"new_origin[ax] evaluates to {no}, the law is O + S·(F−1)/2")
     # the vectors start as the old calibration
+    working_vectors(check, repo, fn, "Dataset.bin", "C06-R1")
+    _bin_rest(check, repo, mod, fn)
+
+
+def _validator_copies(repo) -> tuple:
+    """Does validate_ndinfo hand back storage of its own on every path?  (np.array(…) / .flatten() / np.full copy; np.asarray / .reshape / .ravel may return the argument's storage)"""
+    _m, vn = repo.func("quantem.core.utils.validators:validate_ndinfo")
+    fresh, why = True, []
+    for r in [x for x in ast.walk(vn) if isinstance(x, ast.Return) and x.value is not None]:
+        e, seen = r.value, 0
+        while isinstance(e, ast.Name) and seen < 4:
+            dd = [d for d in definitions(vn, e.id) if isinstance(d, ast.AST)]
+            if not dd:
+                break
+            # every definition must be fresh
+            bad = [d for d in dd if not _fresh_array_expr(d)]
+            if bad:
+                fresh = False
+                why.append(unparse(bad[0])[:50])
+            e, seen = None, 9
+        if e is not None and not isinstance(e, ast.Name) and not _fresh_array_expr(e):
+            fresh = False
+            why.append(unparse(e)[:50])
+    return fresh, why
+
+
+def _fresh_array_expr(e: ast.AST) -> bool:
+    """new storage for certain: np.array(…) (copies by default), np.full/zeros/ones, x.copy(), x.astype(…) (copy=True default), x.flatten(), arithmetic"""
+    if isinstance(e, ast.BinOp):
+        return True
+    if isinstance(e, ast.Call):
+        last = (call_name(e) or "").split(".")[-1] if call_name(e) else (e.func.attr if isinstance(e.func, ast.Attribute) else "")
+        if last in ("copy", "flatten", "full", "zeros", "ones", "deepcopy", "tolist"):
+            return True
+        if last == "astype":
+            return not is_const(kwarg(e, "copy"), False)
+        if last == "array":
+            return not is_const(kwarg(e, "copy"), False)
+        if last in ("asarray", "asanyarray", "reshape", "ravel", "squeeze", "atleast_1d", "view"):
+            return False
+        if isinstance(e.func, ast.Attribute):  # method chain: fresh if the receiver chain contains a copying step… only the outermost decides for views
+            return False
+    return False
+
+
+def working_vectors(check, repo, fn, label: str, rule: str) -> None:
+    """The calibration update works on vectors that (a) start as the old calibration and (b) are storage of their own: the per-axis update writes into them in place, so a
+    vector that may share storage with `self.sampling` / `self.origin` changes the SOURCE dataset of a copying call.  Two sites cooperate: the initialiser
+    (`.astype(float).copy()` — or a validator call) and, when a validator is used, whether that validator copies."""
+    vfresh, vwhy = _validator_copies(repo)
     for v, src in (("new_sampling", "self.sampling"), ("new_origin", "self.origin")):
         d = [x for x in definitions(fn, v) if isinstance(x, ast.AST)]
-        ok = len(d) == 1 and unparse(d[0]).startswith(src)
-        check.decide(ok, "C06-R1", f"Dataset.bin: {v} starts from {src}", "", mod.line(fn),
-                     fail_detail=f"{v} is not initialised from {src}")
-    _bin_rest(check, repo, mod, fn)
+        if len(d) != 1:
+            check.violated(rule, f"{label}: {v} starts from {src}", f"{v} is not initialised exactly once", "")
+            continue
+        e = d[0]
+        from_src = any(unparse(x) == src for x in ast.walk(e))
+        via_validator = isinstance(e, ast.Call) and (call_name(e) or "").endswith("validate_ndinfo")
+        own = _fresh_array_expr(e) or (via_validator and vfresh)
+        stored = any(isinstance(x, (ast.Assign, ast.AugAssign)) and any(isinstance(t, ast.Subscript) and dotted(t.value) == v for t in (x.targets if isinstance(x, ast.Assign) else [x.target]))
+                     for x in ast.walk(fn))
+        check.decide(from_src, rule, f"{label}: {v} starts from {src}", unparse(e)[:60], "", fail_detail=f"{v} = `{unparse(e)[:60]}` is not initialised from {src}")
+        if own or not stored:
+            check.holds(rule, f"{label}: {v} is storage of its own (the in-place per-axis update cannot reach the source's calibration)",
+                        "validator copies" if via_validator else unparse(e)[:50])
+        elif via_validator or isinstance(e, ast.Call):
+            check.violated(rule, f"{label}: {v} is storage of its own (the in-place per-axis update cannot reach the source's calibration)",
+                           f"`{v} = {unparse(e)[:60]}` can be the source's own array ({'validate_ndinfo returns `' + vwhy[0] + '`' if via_validator and vwhy else 'no copying step'}) and the per-axis "
+                           f"update stores into it: a copying (modify_in_place=False) call changes the calibration of the dataset it was called on", "", definite=True)
+        else:
+            raise AnalysisError(f"{label}: freshness of `{v} = {unparse(e)[:50]}` not decided")
 
 
 def _seq_order(fn, e: ast.AST, depth: int = 0):
